@@ -1,7 +1,7 @@
 (** C02 — The session self-heals: never stuck, nothing in the past blocks re-establishment. *)
 From YV Require Import lib.Base model.YWorld model.YProto gen.Consts gen.FsmGen model.YFraming
   model.YSession proof.SessionFraming proof.SessionC03 proof.SessionC03b proof.SessionC05
-  proof.SessionC02 proof.SessionC02b proof.SessionRP.
+  proof.SessionC02 proof.SessionC02b proof.SessionRP proof.SessionAuto.
 
 (** every error close — in ANY world: any state, timers, connections, history — ends in Idle
     with the restart (IdleHold) timer armed one idle-hold period from now *)
@@ -105,3 +105,19 @@ Example C02_reconnect_pending_example :
   let w := run D0 (world0 cf0 []) [EBoot; EConnOk 0; EData 0 open_frame; ELost 0] in
   w_auto w = true /\ w_state w = StIdle /\ t_dl (w_tih w) <> None.
 Proof. vm_compute. repeat split; discriminate. Qed.
+
+(** ... and nothing but an operator stop switches automatic restart off (no peer input, connection
+    event, timer expiry or API send does), so along every event sequence without a manual stop
+    the reconnection is pending unconditionally *)
+Theorem C02_reconnect_pending_without_operator_stop : forall (D : decoders) cf capl es,
+  ~ In EManualStop es ->
+  let w := run D (world0 cf capl) (EBoot :: es) in
+  w_auto w = true /\ pending w.
+Proof.
+  intros D cf capl es Hn w.
+  assert (Ha : w_auto w = true).
+  { apply (auto_only_operator D (EBoot :: es) (world0 cf capl)); [|reflexivity].
+    intros [X|X]; [discriminate X|exact (Hn X)]. }
+  split; [exact Ha|]. apply (C02_reconnect_pending D cf capl es). exact Ha.
+Qed.
+Print Assumptions C02_reconnect_pending_without_operator_stop.
